@@ -79,12 +79,14 @@ def check_sac(ctx, idx):
     env = random_tabular(rng, box=True, p_term=0.1, p_trunc=0.05)
     nS = int(env.T.shape[0])
     tau = float(rng.choice([0.005, 0.1, 0.5, 1.0]))
-    pf = int(rng.choice([1, 2, 3]))
+    # (num_steps, policy_frequency) pairs incl. ones sharing a factor, enumerated not drawn
+    T, pf = [(2, 2), (1, 2), (3, 3), (4, 2), (1, 3), (2, 3), (1, 1), (3, 2), (4, 4), (2, 4)][idx % 10]
     autotune = bool(rng.random() < 0.6)
     n = ctx.budget(6, 12)
     E = int(rng.choice([1, 2]))
     policy = TabularSACPolicy(env, rng.uniform(-1, 1, nS), rng.uniform(-1, 0, nS))
-    algo = SAC(buffer_size=16 * E, learning_starts=4, num_envs=E, num_steps=1, batch_size=4, tau=tau,
+    # the gating counts iterations, not environment steps
+    algo = SAC(buffer_size=32 * E, learning_starts=4, num_envs=E, num_steps=T, batch_size=4, tau=tau,
                policy_frequency=pf, autotune=autotune, q_width_size=4, q_depth=1, policy_lr=1e-2, q_lr=1e-2)
     cb = CallbackList(callbacks=[])
     key = jr.key(int(rng.integers(0, 2**31)))
@@ -100,10 +102,12 @@ def check_sac(ctx, idx):
     actor_changed = [hist[k + 1][2] != hist[k][2] for k in range(n)]
     alpha_changed = [hist[k + 1][3] != hist[k][3] for k in range(n)]
     case = {"kind": "sac-schedule", "tau": tau, "policy_frequency": pf, "autotune": autotune, "num_envs": E,
+            "num_steps": T,
             "actor_changed": actor_changed, "alpha_changed": alpha_changed,
             "iteration_counts": [h[4] for h in hist]}
     ctx.case({**case, "idx": idx}, True, sample=case if idx == 0 else None)
     ctx.count(f"sac:pf={pf},autotune={int(autotune)}")
+    ctx.count(f"sac:num_steps={T}")
     ctx.count("sac:iterations", n)
     if not np.array_equal(hist[0][0], hist[0][1]):
         ctx.phi_fail("targets_start_as_copy_of_critics", case, key="sac:init")
@@ -170,7 +174,7 @@ def check_learn(ctx, idx):
 def run(ctx):
     for i in range(ctx.budget(4, 16)):
         check_dqn(ctx, i)
-    for i in range(ctx.budget(4, 16)):
+    for i in range(ctx.budget(6, 20)):
         check_sac(ctx, i)
     for i in range(ctx.budget(10, 40)):
         check_learn(ctx, i)
